@@ -40,18 +40,18 @@ Proof. rewrite to_stream_cons, <- app_assoc. cbn [app]. apply readline_line. Qed
 Lemma all_ints_zn (sh : shape) : all_ints T (map zn sh) = Some (map Z.of_nat sh).
 Proof. induction sh as [|d sh IH]; cbn; auto. now rewrite IH. Qed.
 
-Lemma rd_shape_z_lines (sh : shape) (s : stream) : sh <> [] ->
+Lemma rd_shape_z_lines (sh : shape) (s : stream) :
   rd_shape_z T (to_stream (size_lines T sh) ++ s) = Some (map Z.of_nat sh, s).
 Proof.
-  intros Hne. unfold rd_shape_z, size_lines. rewrite readline_cons. cbn [fst snd]. rewrite readline_cons. cbn [fst snd].
-  cbn [head_int int_tok C16IO.zn bindo]. rewrite all_ints_zn. cbn [bindo]. rewrite !map_length, Z.eqb_refl. cbn [negb orb].
-  destruct sh; [congruence|]. reflexivity.
+  unfold rd_shape_z, size_lines. rewrite readline_cons. cbn [fst snd]. rewrite readline_cons. cbn [fst snd].
+  cbn [head_int int_tok C16IO.zn bindo]. rewrite all_ints_zn. cbn [bindo]. rewrite !map_length, Z.eqb_refl. cbn [negb].
+  reflexivity.
 Qed.
 
-Lemma rd_shape_l_lines (sh : shape) (s : stream) : sh <> [] ->
+Lemma rd_shape_l_lines (sh : shape) (s : stream) :
   rd_shape_l T (to_stream (size_lines T sh) ++ s) = Some (sh, s).
 Proof.
-  intros Hne. unfold rd_shape_l. rewrite rd_shape_z_lines by exact Hne. cbn [bindo fst snd].
+  unfold rd_shape_l. rewrite rd_shape_z_lines. cbn [bindo fst snd].
   replace (forallb (fun z => (0 <=? z)%Z) (map Z.of_nat sh)) with true.
   - rewrite map_map. f_equal. f_equal. rewrite <- (map_id sh) at 2. apply map_ext. intros. apply Nat2Z.id.
   - symmetry. apply forallb_forall. intros z Hz. apply in_map_iff in Hz as (d & <- & _). apply Z.leb_le. lia.
@@ -172,7 +172,7 @@ Lemma rd_factors_lines_l R (Fs : list (list (list D))) :
 Proof.
   induction Fs as [|A Fs IH]; intros H; [reflexivity|]. inversion H as [|? ? HA HFs]; subst.
   cbn [length flat_map C16Lines.rd_factors_l]. unfold factor_lines at 1. rewrite to_stream_app.
-  rewrite readline_cons. cbn [fst snd]. rewrite to_stream_app, <- app_assoc, rd_shape_l_lines by discriminate.
+  rewrite readline_cons. cbn [fst snd]. rewrite to_stream_app, <- app_assoc, rd_shape_l_lines.
   cbn [bindo fst snd]. rewrite Nat.eqb_refl.
   destruct (Nat.eq_dec R 0) as [R0|R0].
   { (* no column: nothing is read by np.fromfile, the (length A) empty row lines are dropped *)
@@ -199,46 +199,53 @@ Proof.
 Qed.
 
 (* ---------------------------------------------------------------- the round trip, line by line *)
+(* the objects WITHOUT modes pyttb can hold: besides the tensor without entries (wf_tensor) only the sparse tensor without
+   stored entry (ttb.sptensor(); the constructor takes an nz x 0 subscript array for "no subscripts") and the Kruskal tensor
+   without weights (ttb.ktensor(); ttb.ktensor([], weights) raises) *)
 Definition wf_lines (o : obj D) : Prop :=
   match o with
-  | OTensor X => dshape X <> []
-  | OSptensor Sp => sshape Sp <> []
-  | OKtensor K => kfactors K <> []
-  | OMatrix _ _ _ => True
-  | OArray s _ => s <> []
+  | OSptensor Sp => sshape Sp = [] -> ssubs Sp = []
+  | OKtensor K => kfactors K = [] -> kweights K = []
+  | _ => True
   end.
 
 Theorem roundtrip_lines b (o : obj D) : wf_obj D o -> wf_lines o -> import_lines b (export_lines b o) = Some o.
 Proof.
   destruct o as [X|Sp|K|m n A|s c]; cbn [wf_obj wf_lines]; unfold C16Lines.import_lines, C16IO.export_lines.
-  - intros W Hne. rewrite <- (app_nil_r (to_stream _)). unfold C16Lines.import_stream. rewrite readline_cons. cbn [fst snd].
-    cbn [String.eqb Ascii.eqb Bool.eqb]. rewrite to_stream_app, <- app_assoc, rd_shape_l_lines by exact Hne. cbn [bindo fst snd].
-    rewrite app_nil_r, (ravelC_transpose D d0 X W). rewrite <- W.
+  - intros W _. rewrite <- (app_nil_r (to_stream _)). unfold C16Lines.import_stream. rewrite readline_cons. cbn [fst snd].
+    cbn [String.eqb Ascii.eqb Bool.eqb]. rewrite to_stream_app, <- app_assoc, rd_shape_l_lines. cbn [bindo fst snd].
+    rewrite app_nil_r, (tensor_vals_data D d0 X W). unfold wf_tensor in W. rewrite <- W.
     destruct (rd_vals_one_per_line (ddata X)) as (s' & E). rewrite E. cbn [bindo fst snd].
-    rewrite (reshapeF_1d D d0) by (unfold wf_dense in W; lia). now destruct X.
-  - intros [HL Hb] Hne. rewrite <- (app_nil_r (to_stream _)). unfold C16Lines.import_stream. rewrite readline_cons. cbn [fst snd].
-    cbn [String.eqb Ascii.eqb Bool.eqb]. rewrite to_stream_app, <- app_assoc, rd_shape_l_lines by exact Hne. cbn [bindo fst snd].
+    rewrite (tensor_of_data D d0) by exact W. now destruct X.
+  - intros [HL Hb] H0. rewrite <- (app_nil_r (to_stream _)). unfold C16Lines.import_stream. rewrite readline_cons. cbn [fst snd].
+    cbn [String.eqb Ascii.eqb Bool.eqb]. rewrite to_stream_app, <- app_assoc, rd_shape_l_lines. cbn [bindo fst snd].
     rewrite readline_cons. cbn [fst snd head_int int_tok C16IO.zn bindo]. unfold nat_of.
     destruct (Z.leb_spec 0 (Z.of_nat (length (ssubs Sp)))); [|lia]. cbn [bindo]. rewrite Nat2Z.id, app_nil_r.
     assert (HE : length (ssubs Sp) = length (entries Sp)) by (unfold entries; rewrite combine_length; lia).
-    rewrite HE, rd_entries_lines_l.
+    assert (E0 : order0_bad (sshape Sp) (length (ssubs Sp)) = false).
+    { unfold order0_bad. destruct (sshape Sp) as [|d sh]; [|reflexivity]. now rewrite (H0 eq_refl). }
+    rewrite E0. rewrite HE, rd_entries_lines_l.
     + cbn [bindo]. unfold entries. rewrite map_fst_combine, map_snd_combine by auto.
       replace (forallb (inb (sshape Sp)) (ssubs Sp)) with true; [now destruct Sp|].
       symmetry. apply forallb_forall. rewrite Forall_forall in Hb. auto.
     + rewrite Forall_forall. intros [i v] Hin. cbn [fst]. unfold entries in Hin. apply in_combine_l in Hin.
       rewrite Forall_forall in Hb. apply inb_length. auto.
-  - intros W Hne. rewrite <- (app_nil_r (to_stream _)). unfold C16Lines.import_stream. rewrite readline_cons. cbn [fst snd].
+  - intros W H0. rewrite <- (app_nil_r (to_stream _)). unfold C16Lines.import_stream. rewrite readline_cons. cbn [fst snd].
     cbn [String.eqb Ascii.eqb Bool.eqb]. rewrite to_stream_app, <- app_assoc.
-    assert (Hk : kshape K <> []) by (unfold kshape; destruct (kfactors K); [congruence|discriminate]).
-    rewrite rd_shape_z_lines by exact Hk. cbn [bindo fst snd].
+    rewrite rd_shape_z_lines. cbn [bindo fst snd].
     rewrite readline_cons. cbn [fst snd head_int int_tok C16IO.zn bindo]. unfold nat_of.
     destruct (Z.leb_spec 0 (Z.of_nat (krank K))); [|lia]. cbn [bindo]. rewrite Nat2Z.id, app_nil_r.
+    rewrite map_length, (length_kshape D K).
+    assert (Hc : kfactors K = [] \/ kfactors K <> []) by (destruct (kfactors K); [left; reflexivity|right; discriminate]).
+    destruct Hc as [EF|Hk].
+    { (* the Kruskal tensor without modes: no weight, no factor *)
+      specialize (H0 EF). unfold krank. rewrite H0, EF. cbn [length Nat.eqb]. destruct K as [w fs]. cbn in *. now subst. }
+    replace (Nat.eqb (length (kfactors K)) 0) with false by (destruct (kfactors K); [congruence|reflexivity]).
     destruct (Nat.eq_dec (krank K) 0) as [HR|HR].
     { (* no component: the empty weights line is dropped by the extra readline *)
       assert (Ew : kweights K = []) by (unfold krank in HR; destruct (kweights K); [reflexivity|discriminate]).
       rewrite HR in *. rewrite Ew. cbn [rd_weights fst snd length Nat.eqb].
       rewrite <- (app_nil_r (to_stream (num_line D T print [] :: _))), readline_cons, app_nil_r. cbn [snd].
-      rewrite map_length, (length_kshape D K).
       rewrite rd_factors_lines_l by exact W. cbn [bindo]. destruct K as [w fs]. cbn in Ew. now subst w. }
     destruct (rd_vals_rows [kweights K] (to_stream (flat_map (factor_lines D T print (krank K)) (kfactors K)))) as (s' & E & Hs').
     { constructor; [|constructor]. intros E. unfold krank in HR. rewrite E in HR. cbn in HR. lia. }
@@ -247,17 +254,16 @@ Proof.
     rewrite (rd_weights_vals _ _ _ E). cbn [bindo fst snd]. rewrite Hs' by discriminate.
     replace (Nat.eqb (krank K) 0) with false by (symmetry; now apply Nat.eqb_neq).
     rewrite skip_ws_lines.
-    + rewrite map_length, (length_kshape D K). fold (krank K).
-      rewrite rd_factors_lines_l by auto. cbn [bindo]. now destruct K.
+    + fold (krank K). rewrite rd_factors_lines_l by auto. cbn [bindo]. now destruct K.
     + intros l f' Ef. destruct (kfactors K) as [|B Fs']; [congruence|]. cbn [flat_map] in Ef. unfold factor_lines at 1 in Ef.
       inversion Ef. eexists _, _. split; [reflexivity|discriminate].
   - intros [Hm Hn] _. rewrite <- (app_nil_r (to_stream _)). unfold C16Lines.import_stream. rewrite readline_cons. cbn [fst snd].
-    cbn [String.eqb Ascii.eqb Bool.eqb]. rewrite to_stream_app, <- app_assoc, rd_shape_l_lines by discriminate. cbn [bindo fst snd].
+    cbn [String.eqb Ascii.eqb Bool.eqb]. rewrite to_stream_app, <- app_assoc, rd_shape_l_lines. cbn [bindo fst snd].
     rewrite app_nil_r. subst m. rewrite <- (length_concat_rows D A n Hn).
     destruct (rd_vals_one_per_line (concat A)) as (s' & E). rewrite E. cbn [bindo fst snd].
     now rewrite (reshapeC2_concat D A n Hn).
-  - intros [Hc Hs] Hne. rewrite <- (app_nil_r (to_stream _)). unfold C16Lines.import_stream. rewrite readline_cons. cbn [fst snd].
-    cbn [String.eqb Ascii.eqb Bool.eqb]. rewrite to_stream_app, <- app_assoc, rd_shape_l_lines by exact Hne. cbn [bindo fst snd].
+  - intros [Hc Hs] _. rewrite <- (app_nil_r (to_stream _)). unfold C16Lines.import_stream. rewrite readline_cons. cbn [fst snd].
+    cbn [String.eqb Ascii.eqb Bool.eqb]. rewrite to_stream_app, <- app_assoc, rd_shape_l_lines. cbn [bindo fst snd].
     rewrite app_nil_r. destruct (rd_vals_one_per_line c) as (s' & E).
     destruct s as [|d1 [|d2 [|d3 s'']]]; try (cbn in Hs; congruence); rewrite <- Hc, E; reflexivity.
 Qed.
@@ -324,6 +330,22 @@ Proof.
   rewrite removelast_last. eapply subs_of_base; eauto.
 Qed.
 
+(* import_shape, EXACTLY: two lines are read; the first token of the first is an integer text n, ALL tokens of the second are
+   integer texts, and there are n of them — none for n = 0 (the empty sizes line of an object without modes) *)
+Theorem rd_shape_z_iff (s : C16Lines.stream T) zs r :
+  rd_shape_z T s = Some (zs, r) <->
+  head_int T (fst (C16Lines.readline T s)) = Some (Z.of_nat (length zs)) /\
+  all_ints T (fst (C16Lines.readline T (snd (C16Lines.readline T s)))) = Some zs /\
+  r = snd (C16Lines.readline T (snd (C16Lines.readline T s))).
+Proof.
+  unfold rd_shape_z. cbv zeta. split.
+  - destruct (head_int T _) as [n|]; [|discriminate]. cbn [bindo].
+    destruct (all_ints T _) as [zs'|]; [|discriminate]. cbn [bindo].
+    destruct (Z.eqb_spec (Z.of_nat (length zs')) n) as [<-|]; [|discriminate]. cbn [negb].
+    intros H; inversion H; subst. repeat split; reflexivity.
+  - intros (H1 & H2 & ->). rewrite H1, H2. cbn [bindo]. now rewrite Z.eqb_refl.
+Qed.
+
 (* the type word: a file is accepted only if its first line starts with one of the four words; whatever follows the
    first token of that line is ignored *)
 Theorem import_type_guard b (f : list line) o : import_lines b f = Some o ->
@@ -361,6 +383,7 @@ Proof.
   - destruct (rd_shape_l T _) as [sh|]; [|discriminate]. cbn [bindo].
     destruct (head_int T _) as [zn|]; [|discriminate]. cbn [bindo]. destruct (nat_of zn) as [nz|]; [|discriminate]. cbn [bindo].
     destruct (C16Lines.rd_entries_l D T parse ofZ b _ nz _) as [es|]; [|discriminate]. cbn [bindo].
+    destruct (order0_bad (fst sh) nz); [discriminate|].
     destruct (forallb (inb (fst sh)) (map fst es)) eqn:E; [|discriminate]. intros H; inversion H; subst. cbn [sshape ssubs svals].
     split; [|now rewrite !map_length]. rewrite forallb_forall in E. now apply Forall_forall.
   - destruct (String.eqb w "matrix").
@@ -369,7 +392,60 @@ Proof.
     destruct (String.eqb w "ktensor"); [|discriminate].
     destruct (rd_shape_z T _) as [sh|]; [|discriminate]. cbn [bindo].
     destruct (head_int T _) as [zn|]; [|discriminate]. cbn [bindo]. destruct (nat_of zn) as [nz|]; [|discriminate]. cbn [bindo].
+    destruct (Nat.eqb (length (fst sh)) 0); [destruct (Nat.eqb nz 0); discriminate|].
     destruct (C16Lines.rd_factors_l D T parse ofZ _ _ _); discriminate.
+Qed.
+
+(* what import_data accepts WITHOUT modes is one of the objects pyttb can hold: the tensor without entries, the sparse
+   tensor without stored entry, the Kruskal tensor without weights (never an "order-0 object with entries") *)
+Lemma rd_entries_l_length b N nz s es : C16Lines.rd_entries_l D T parse ofZ b N nz s = Some es -> length es = nz.
+Proof.
+  revert s es; induction nz as [|nz IH]; intros s es H; cbn in H; [inversion H; reflexivity|].
+  destruct (entry_of_line b N _) as [e|]; [|discriminate]. cbn [bindo] in H.
+  destruct (C16Lines.rd_entries_l D T parse ofZ b N nz _) as [q|] eqn:E; [|discriminate]. inversion H; subst. cbn. f_equal. eapply IH, E.
+Qed.
+Lemma rd_factors_l_length R n s fs : C16Lines.rd_factors_l D T parse ofZ R n s = Some fs -> length fs = n.
+Proof.
+  revert s fs; induction n as [|n IH]; intros s fs H; cbn in H; [inversion H; reflexivity|].
+  destruct (rd_shape_l T _) as [sh|]; [|discriminate]. cbn [bindo] in H.
+  destruct (fst sh) as [|m [|c [|k r]]]; try discriminate. destruct (Nat.eqb c R); [|discriminate].
+  destruct (C16Lines.rd_vals D T parse ofZ _ _) as [v|]; [|discriminate]. cbn [bindo] in H.
+  destruct (C16Lines.rd_factors_l D T parse ofZ R n _) as [q|] eqn:E; [|discriminate]. inversion H; subst. cbn. f_equal. eapply IH, E.
+Qed.
+Theorem import_order0 b (f : list line) o : import_lines b f = Some o ->
+  match o with
+  | OTensor X => dshape X = [] -> ddata X = []
+  | OSptensor Sp => sshape Sp = [] -> ssubs Sp = [] /\ svals Sp = []
+  | OKtensor K => kfactors K = [] -> kweights K = []
+  | _ => True
+  end.
+Proof.
+  unfold C16Lines.import_lines, C16Lines.import_stream.
+  destruct (fst (C16Lines.readline T (C16Lines.to_stream T f))) as [|[w|z|x] l']; try discriminate.
+  destruct (String.eqb w "tensor").
+  { destruct (rd_shape_l T _) as [sh|]; [|discriminate]. cbn [bindo].
+    destruct (C16Lines.rd_vals D T parse ofZ _ _) as [v|] eqn:E; [|discriminate]. cbn [bindo]. intros H; inversion H; subst.
+    destruct (fst sh) as [|d sh'] eqn:Es; cbn [tensor_of dshape ddata]; [|unfold np_reshapeF; cbn; discriminate].
+    intros _. cbn in E. now inversion E. }
+  destruct (String.eqb w "sptensor").
+  - destruct (rd_shape_l T _) as [sh|]; [|discriminate]. cbn [bindo].
+    destruct (head_int T _) as [zn|]; [|discriminate]. cbn [bindo]. destruct (nat_of zn) as [nz|]; [|discriminate]. cbn [bindo].
+    destruct (C16Lines.rd_entries_l D T parse ofZ b _ nz _) as [es|] eqn:Ee; [|discriminate]. cbn [bindo].
+    destruct (order0_bad (fst sh) nz) eqn:E0; [discriminate|].
+    destruct (forallb (inb (fst sh)) (map fst es)); [|discriminate]. intros H; inversion H; subst. cbn [sshape ssubs svals].
+    intros Es. unfold order0_bad in E0. rewrite Es in E0. cbn in E0. apply rd_entries_l_length in Ee.
+    destruct nz; [|discriminate]. destruct es; [split; reflexivity|discriminate].
+  - destruct (String.eqb w "matrix").
+    { destruct (rd_shape_l T _) as [sh|]; [|discriminate]. cbn [bindo].
+      destruct (fst sh) as [|m [|n [|k r]]]; destruct (C16Lines.rd_vals D T parse ofZ _ _); try discriminate;
+        cbn [bindo]; intros H; inversion H; exact I. }
+    destruct (String.eqb w "ktensor"); [|discriminate].
+    destruct (rd_shape_z T _) as [sh|]; [|discriminate]. cbn [bindo].
+    destruct (head_int T _) as [zn|]; [|discriminate]. cbn [bindo]. destruct (nat_of zn) as [nz|]; [|discriminate]. cbn [bindo].
+    destruct (Nat.eqb_spec (length (fst sh)) 0) as [E0|E0].
+    { destruct (Nat.eqb nz 0); [|discriminate]. intros H; inversion H; reflexivity. }
+    destruct (C16Lines.rd_factors_l D T parse ofZ _ _ _) as [fs|] eqn:Ef; [|discriminate]. cbn [bindo].
+    intros H; inversion H; subst. cbn [kfactors kweights]. intros ->. apply rd_factors_l_length in Ef. cbn in Ef. congruence.
 Qed.
 End G.
 
